@@ -99,8 +99,12 @@ pub const CONTEXTS: &[Ctx1] = &[
     cx!("`(K . #(K ,•))"),
     // a nested quasiquote as the dotted tail of a template opens a level like any other
     cx!("`(K . `(K ,,•))"),
+    // an unquote in the dotted tail of a nested template lowers the level for what it encloses
+    cx!("`(K `(K . ,(K ,•)))"),
     // a compound key before a clause with =>: the key is evaluated once
     cx!("(case (car (list •)) ((11 12 13 14 15 16 17 18 19 20 21 22 23 24 25 26 27 28 29 30 31 32 33 34 35 36 37 38 39 40) => (lambda (x) (list 'c x))) ((s) 'sym) (else => (lambda (x) (list 'e x))))", &[]),
+    // a promise whose expression forces the promise itself: the value of the force that finishes first is kept
+    cx!("(let ((n 0) (q #f)) (set! q (delay (begin (set! n (+ n 1)) (if (< n 3) (begin (force q) (list n •)) (list 'first n))))) (list (force q) (force q) n))", &[("n", Kind::Int), ("q", Kind::Hidden)]),
     // a => clause as the last clause of a case without else
     cx!("(case • ((s) 'sym) ((11 12 13 14 15 16 17 18 19 20 21 22 23 24 25 26 27 28 29 30 31 32 33 34 35 36 37 38 39 40) => (lambda (x) (list 'last x))))", &[]),
     // conditionals whose other arm is a derived form (a call of a fresh closure in tail position)
@@ -384,8 +388,10 @@ fn run_chain(st: &mut St, acc: &mut Acc, program: &str, depth: u32, idx: u64, in
         }
     }
     if fresh_twice {
-        for _ in 0..2 {
+        for round in 0..2 {
             let mut im = Impl::new();
+            // the second fresh VM receives every form as text (Vm::eval_text), like a REPL
+            im.text_route = round == 1;
             for f in parse_forms(PREAMBLE).unwrap() {
                 let _ = im.eval(&f);
             }
@@ -662,12 +668,82 @@ pub fn run(ctx: &Ctx) -> i32 {
         acc.count("conditional_tree_programs", n);
         acc = Acc::merge(acc, a);
     }
+    // F. calls made while N operands are pending: every N from 0 to 1100 (the operand stack of a fresh VM holds 256
+    // slots and doubles) for ten kinds of call, each in a fresh VM, so that every capacity boundary
+    // is met by a stack that has never been larger; and the same calls at the bottom of a non-tail recursion of every
+    // depth 0..300 with 0..3 operands pending per level (every alignment of frame size and capacity)
+    {
+        const CALLS: [&str; 10] = [
+            "((lambda r r))",
+            "((lambda (a . r) (list a r)) 1)",
+            "((lambda (a . r) (list a r)) 1 2)",
+            "((lambda (a b . r) (list a b r)) 1 2 3 4)",
+            "((lambda (a) (list 'fixed a)) 5)",
+            "(list)",
+            "(call/cc (lambda (k) (k 'escaped)))",
+            "(apply (lambda r r) '())",
+            "(let loop ((i 0)) (if (< i 3) (loop (+ i 1)) (list 'looped i)))",
+            "(map (lambda (x) (list x)) '(1 2))",
+        ];
+        let kinds: Vec<(usize, usize)> = (0..CALLS.len()).flat_map(|c| (0..5).map(move |mode| (c, mode))).collect();
+        let a = par_fold(
+            kinds.len() as u64,
+            1,
+            || (),
+            |_, acc, i| {
+                let (c, mode) = kinds[i as usize];
+                let call = CALLS[c];
+                let mut im = Impl::new();
+                let want = im.eval_text(call).show();
+                let mut im = Impl::new();
+                let mut check = |acc: &mut Acc, im: &mut Impl, text: &str, want: &str, key: String| {
+                    acc.evals += 1;
+                    beat(&key);
+                    let got = im.eval_text(text).show();
+                    if got == want {
+                        acc.nontrivial += 1;
+                        true
+                    } else {
+                        acc.violation(Violation {
+                            key,
+                            class: Some("pending-operands".into()),
+                            observed: if got.starts_with("panic") { "panic".into() } else if got.starts_with("error") { "error".into() } else { "wrong-result".into() },
+                            detail: json!({"session": [if text.len() > 400 { format!("{} ... {}", &text[..200], &text[text.len() - 150..]) } else { text.to_string() }], "expected": want, "observed": got}),
+                        });
+                        false
+                    }
+                };
+                // a fresh VM for every N: a push that reaches the last slot already doubles the stack, so in a VM that
+                // ran N - 1 the boundary N would meet is gone
+                if mode == 4 {
+                    for n in 0..=1100usize {
+                        let text = format!("(let ((v (vector {}{}))) (list (vector-length v) (vector-ref v {})))", "0 ".repeat(n), call, n);
+                        im = Impl::new();
+                        check(acc, &mut im, &text, &format!("({} {})", n + 1, want), format!("pending:{}@{}", call, n));
+                    }
+                } else {
+                    let pads = mode;
+                    let def = format!("(define (deep n) (if (= n 0) {} (vector-ref (vector {}(deep (- n 1))) {})))", call, "0 ".repeat(pads), pads);
+                    for n in 0..=300usize {
+                        im = Impl::new();
+                        let _ = im.eval_text(&def);
+                        check(acc, &mut im, &format!("(deep {})", n), &want, format!("pending:{}@depth{}x{}", call, n, pads));
+                    }
+                }
+                beat("");
+            },
+            Acc::merge,
+            acc_zero,
+        );
+        acc.count("pending_operand_programs", (CALLS.len() * (1101 + 4 * 301)) as u64);
+        acc = Acc::merge(acc, a);
+    }
     let val = crate::pinned::validate_model();
     rep.states = Some(acc.evals);
     rep.transitions = Some(acc.evals * 3);
     rep.traces_validated = Some(acc.nontrivial + val.forms_agreeing);
     rep.rule = format!(
-        "A. every chain of <= {} one-hole contexts ({} contexts, the 26 extended ones - nested quasiquote (also as a dotted tail), case => (also as the last clause), multi-expression cond clause, multi-list map / for-each, let with internal define, empty let*, a promise forced twice, apply of map, accumulating named let, and / or / when / unless / one-armed if with the hole as a non-final operand or test, set! of a global - only below the maximal depth: operand positions, fixed/variadic/rest lambdas, apply, let/let*/letrec/named let, begin, if, cond (else, =>, test-only), case (clause, key, else =>), and/or/when/unless, quasiquote (list, vector, nested, cdr), delay/force, internal defines, set!, map/for-each callbacks, call/cc (return, escape), returned closure, constructors, global procedure, eval) around each of {} leaves (constants of every data kind, innermost/outer local, global, set!-then-read of local/global, immediate closure, let rebinding, quasiquote templates over a local, fixed/variadic/apply calls of globals, a logging call, five failures) = {} programs, each run as the session (define g 100); program; g on the real VM and on the reference CEK machine and compared form by form (value or failure, display/write output); B. every sequence of <= {} of the {} top-level forms over globals g h f (definitions, redefinitions, set!, late-bound procedure bodies, calls) = {} sessions, renamed apart inside a shared VM and (length <= 3) verbatim in a fresh VM; E. every tree of if forms of depth <= 2 (one- and two-armed, constant tests, eight kinds of leaves incl. let and begin bodies and assignments whose value is itself a conditional) as a top-level form, as an operand, as a procedure body and in statement position of a body followed by a variable reference, a constant or a call; D. sixteen programs whose variables are spelled like the temporaries (var1, temp, atom-key), the free identifiers (not, memv, make-promise, begin) and the keywords (and, when) of the prelude's derived-form macros, or that define the prelude's helper procedures (any?, map1), with controls; C. every chain program of depth <= 2 also runs in a VM that first evaluated 60 unrelated globals, 5 macros, garbage and a collection, and (all of depth <= 1, every {}th of depth 2) twice in fresh VMs; all observations must be equal. Non-trivial = a program or session on which model and implementation agreed on every form (programs the model excludes - R7RS prescribes no outcome - are counted separately).",
+        "A. every chain of <= {} one-hole contexts ({} contexts, the 28 extended ones - nested quasiquote (also as a dotted tail, and with a dotted unquote inside), case => (also as the last clause), a promise that forces itself, multi-expression cond clause, multi-list map / for-each, let with internal define, empty let*, a promise forced twice, apply of map, accumulating named let, and / or / when / unless / one-armed if with the hole as a non-final operand or test, set! of a global - only below the maximal depth: operand positions, fixed/variadic/rest lambdas, apply, let/let*/letrec/named let, begin, if, cond (else, =>, test-only), case (clause, key, else =>), and/or/when/unless, quasiquote (list, vector, nested, cdr), delay/force, internal defines, set!, map/for-each callbacks, call/cc (return, escape), returned closure, constructors, global procedure, eval) around each of {} leaves (constants of every data kind, innermost/outer local, global, set!-then-read of local/global, immediate closure, let rebinding, quasiquote templates over a local, fixed/variadic/apply calls of globals, a logging call, five failures) = {} programs, each run as the session (define g 100); program; g on the real VM and on the reference CEK machine and compared form by form (value or failure, display/write output); B. every sequence of <= {} of the {} top-level forms over globals g h f (definitions, redefinitions, set!, late-bound procedure bodies, calls) = {} sessions, renamed apart inside a shared VM and (length <= 3) verbatim in a fresh VM; E. every tree of if forms of depth <= 2 (one- and two-armed, constant tests, eight kinds of leaves incl. let and begin bodies and assignments whose value is itself a conditional) as a top-level form, as an operand, as a procedure body and in statement position of a body followed by a variable reference, a constant or a call; F. ten kinds of call (variadic with zero, one and two extra arguments, fixed, the prelude's list, call/cc, apply, a named-let loop, map) made while N operands are pending for every N in 0..1100, and at the bottom of a non-tail recursion of every depth 0..300 with 0..3 operands pending per level, each in a fresh VM (a stack that has never been larger): the value of the call alone; D. sixteen programs whose variables are spelled like the temporaries (var1, temp, atom-key), the free identifiers (not, memv, make-promise, begin) and the keywords (and, when) of the prelude's derived-form macros, or that define the prelude's helper procedures (any?, map1), with controls; C. every chain program of depth <= 2 also runs in a VM that first evaluated 60 unrelated globals, 5 macros, garbage and a collection, and (all of depth <= 1, every {}th of depth 2) twice in fresh VMs, once given as data (Vm::eval) and once as text (Vm::eval_text); all observations must be equal. Non-trivial = a program or session on which model and implementation agreed on every form (programs the model excludes - R7RS prescribes no outcome - are counted separately).",
         max_depth, CONTEXTS.len(), LEAVES.len(), programs, max_len, SESSION_FORMS.len(), sessions, ctx.tier.pick(11, 1)
     );
     rep.extra("chain_programs_enumerated", json!(programs));
